@@ -144,6 +144,16 @@ check('C13', 'proof',
       'Trusted: Coq kernel (vm_compute), translator gen_versions, harness; interpreter-level global state other than the three tables (import caches, sys.path) is only observed dynamically.',
       'Coq proof of history independence + exhaustive generated instance theorem + dynamic digest comparison', 'DESIGN.md §6 C13')
 
+check('C14', 'other',
+      'Partial: json.dumps, the interpreter\'s stdout and exit code are CPython\'s and are observed. Proved (Coq, closed): on finite result trees the shipped '
+      'encoder can only refuse a dict KEY that is a tuple/bytes/other object, never a value; bytes keys are repaired by the roster normalisation, tuple keys '
+      'are not. Exhaustive: an AST inventory of every print/sys.stdout.write in the package is regenerated on each run and an instance theorem states that '
+      'none is reachable while parsing (CLI print, dump-error message and never-referenced methods excepted). Dynamic: json.dumps(get_info()) and the '
+      'command-line tool on synthetic battles of bundled versions of all three games containing entities, position and own-player-position packets for '
+      'EVERY integer literal of the source as entity id, and on real recordings: stdout must be one JSON document equal to get_info(), exit code 0.',
+      'Trusted: CPython json/stdout, translator gen_sites (AST), the battle generator; a print guarded by a condition that no literal of the source satisfies would only be caught by the inventory theorem (reported with no-failing-input-found).',
+      'Coq characterisation of encoder refusals + generated stdout-site inventory theorem + CLI runs (observation)', 'DESIGN.md §6 C14')
+
 NOT_YET = {}
 ALL = ['C%02d' % i for i in range(1, 20)]
 def main():
